@@ -65,7 +65,11 @@ def values(tier):
     for f in FULL:
         vs.extend(case_variants(f, lim))
     vs += ["{jan}", '"jan"', '"1"', "{1}", "janu", "sept", "Sept.", "foo", "", "ja", "maya", "Mayy", "december ", None, 2.0,
-           "²", "①", "1²", "9" * 5000, "0" * 4999 + "1"]
+           "²", "①", "1²", "9" * 5000, "0" * 4999 + "1",
+           # letters that only case *folding* (not lower-casing) maps onto month letters: no month spellings
+           "\u017fep", "augu\u017ft", "\u017feptember", "\u017fept", "MA\u1e9e", "de\u00e7", "\u0131an", "JUN\u0307",
+           # strings int() accepts although they are no digit strings
+           " 3", "3 ", "+4", "1_2", "7\n", "\t11", "-3"]
     out, seen = [], set()
     for v in vs:
         k = (type(v).__name__, v)
@@ -80,16 +84,36 @@ def run(P: Program, rep: Report):
     mod = P.module("middlewares.month")
     rep.rule("C15.R1", "one table: the abbreviation / full-name tables all derive from one 12-pair literal, aligned by month "
                        "(abbreviation = first three letters of the full name, lower-cased)")
-    ab = P.const("middlewares.month", "_MONTH_ABBREV")
-    fu = P.const("middlewares.month", "_MONTH_FULL")
-    lf = P.const("middlewares.month", "_LOWERCASE_FULL")
-    a2f = P.const("middlewares.month", "_MONTH_ABBREV_TO_FULL")
-    rep.check(list(ab) == ABBR and list(fu) == FULL, "C15.R1", "tables:twelve-months", mod.relpath, f"month tables are {ab} / {fu}")
-    rep.check(list(lf) == [f.lower() for f in fu] and list(a2f.keys()) == list(ab) and list(a2f.values()) == list(fu)
-              and all(f[:3].lower() == a for a, f in zip(ab, fu)), "C15.R1", "tables:aligned", mod.relpath,
-              "the lower-case / abbreviation->full tables are not aligned by month index")
-    rep.check(all(isinstance(mod.assigns[n], (ast.Call, ast.ListComp)) for n in ("_MONTH_ABBREV", "_MONTH_FULL", "_LOWERCASE_FULL")),
-              "C15.R1", "tables:derived", mod.relpath, "a month table is a private literal copy instead of being derived from the shared table")
+    # the month tables, found by what they hold (whatever they are called): module constants of twelve (or more) month spellings
+    months_l = set(ABBR) | {f.lower() for f in FULL}
+    tables = {}
+    for name_, expr_ in mod.assigns.items():
+        try:
+            v_ = P.fold(mod, expr_)
+        except (ValueError, AnalysisError):
+            continue
+        flat = list(v_.keys()) + list(v_.values()) if isinstance(v_, dict) else list(v_) if isinstance(v_, (list, tuple)) else []
+        flat = [y for x in flat for y in (x if isinstance(x, (list, tuple)) else [x])]
+        if len(flat) >= 12 and all(isinstance(x, str) and x.lower() in months_l for x in flat):
+            tables[name_] = v_
+    if not tables:
+        rep.not_decided.append("C15.R1: no module-level month table was recognised (the value table R2 decides the behaviour)")
+    for name_, v_ in sorted(tables.items()):
+        if isinstance(v_, dict):
+            ok = list(v_.keys()) == ABBR and list(v_.values()) == FULL
+        else:
+            seq = list(v_)
+            ok = seq in (ABBR, FULL, [f.lower() for f in FULL], [a.upper() for a in ABBR]) or seq == [list(p_) for p_ in zip(ABBR, FULL)] or seq == list(zip(ABBR, FULL))
+        rep.check(ok, "C15.R1", f"tables:aligned:{name_}", mod.relpath,
+                  f"the month table {name_} = {v_!r} is not the twelve months in calendar order (abbreviation = first three letters of the full name)")
+    if tables:
+        literal = []
+        for name_ in tables:
+            n_lit = sum(1 for x in ast.walk(mod.assigns[name_]) if isinstance(x, ast.Constant) and isinstance(x.value, str) and x.value.lower() in months_l)
+            if n_lit >= 12:
+                literal.append(name_)
+        rep.check(len(literal) <= 1, "C15.R1", "tables:derived", mod.relpath,
+                  f"the month tables {sorted(literal)} are separate literal copies instead of being derived from one shared table")
 
     rep.rule("C15.R2", "value table: for every value kind (ints and digit strings -1..14, leading zeros, every case variant of "
                        "every abbreviation, case variants of every full name, enclosed and other text, None, non-ASCII digits) "
@@ -114,6 +138,24 @@ def run(P: Program, rep: Report):
             return ("other-block", out)
         fs = it.iterate(it.get_attr(e, "fields"))
         return ("value", it.get_attr(fs[1], "value"), it.get_attr(fs[0], "value"), len(fs))
+
+    rep.rule("C15.R8", "month values that are containers (a list of names, a dict, a set: unhashable) are returned as they are, never an exception")
+    for kind in MW:
+        for label, mkval in (("empty-list", lambda: AList([])), ("list-of-str", lambda: AList(["jan"])), ("dict", lambda: ADict({"month": 1})),
+                             ("set", lambda: __import__("bibcheck.absint", fromlist=["ASet"]).ASet([1, 2])), ("tuple", lambda: ("jan", 1))):
+            def one8(ctx, kind=kind, mkval=mkval):
+                it = driver_interp(P, ctx, "middlewares.month")
+                v = mkval()
+                try:
+                    r = apply(it, kind, v)
+                    return ("same" if r[0] == "value" and r[1] is v else "changed", r[:2])
+                except Raised as r_:
+                    return ("raise", r_.cls_name())
+                except (Unsupported, LoopBound) as u:
+                    raise AnalysisError(f"C15.R8: analyser cannot follow {MW[kind]}: {u}")
+            for ctx, (k_, info) in explore(one8, 20):
+                rep.check(k_ == "same", "C15.R8", f"container-value:{kind}:{label}", classes[kind].loc,
+                          f"{MW[kind]} on a month value that is a {label}: {k_} {info!r}; expected the value returned unchanged")
 
     bad = {}
     n = 0
